@@ -18,14 +18,14 @@ import (
 // lruParams: exhaustive enumeration of populations (sizes, access orders, expiry),
 // limits, shard counts and triggers, judged by the relational reference B4/C13.
 type lruParams struct {
-	Name     string  `json:"name"`
-	Backend  string  `json:"backend"`
-	Shards   []int   `json:"shards"`
-	Limits   []int64 `json:"limits"`
-	Sizes    []int64 `json:"sizes"`
-	MaxN     int     `json:"max_n"`
+	Name     string   `json:"name"`
+	Backend  string   `json:"backend"`
+	Shards   []int    `json:"shards"`
+	Limits   []int64  `json:"limits"`
+	Sizes    []int64  `json:"sizes"`
+	MaxN     int      `json:"max_n"`
 	Triggers []string `json:"triggers"` // "store", "tick", "store-colliding"
-	Mode     string  `json:"mode"`     // "evict" or "cleanup"
+	Mode     string   `json:"mode"`     // "evict" or "cleanup"
 }
 
 func init() { vrun.Register("cache/lru", scenarioLRU) }
